@@ -1,7 +1,7 @@
 (* Entry points of the extracted model: [run cmd arg]. *)
 From Coq Require Import NArith List Bool.
 From PV Require Import Base.Sx Model.Forest Model.Table Model.LRDriver Model.Scan Model.Parser
-  Validators.TableStruct Extract.Codec.
+  Validators.TableStruct Validators.ForestSound Extract.Codec.
 Import ListNotations.
 Local Open Scope N_scope.
 
@@ -30,6 +30,25 @@ Definition run_lr_parse (s : sx) : sx :=
 Definition run_tree_ok (s : sx) : sx :=
   ofB (tree_ok (grammar_of_sx (sx_nth s 0)) (tree_of_sx (sx_nth s 1))).
 
+(* 6: forest_ok (grammar forest chars rx ws start pos0 consume strict) -- ws-based layout *)
+Definition run_forest_ok (s : sx) : sx :=
+  let g := grammar_of_sx (sx_nth s 0) in
+  let F := forest_of_sx (sx_nth s 1) in
+  let inp := mkPInput (sxNs (sx_nth s 2)) (map sxNs (sxL (sx_nth s 3))) in
+  let ws := sxNs (sx_nth s 4) in
+  let tokok := fun y b e => match rx_of inp y b with
+                            | Some l => (b + l =? e)
+                            | None => false
+                            end in
+  ofB (forest_ok g tokok (skip_ws ws inp) (sxB (sx_nth s 8)) (sxN (sx_nth s 5)) (sxN (sx_nth s 6))
+                 (in_len inp) (sxB (sx_nth s 7)) F).
+
+(* 7: the trees a forest represents (forest cap): (1 (tree...)) or (0 ()) when more than cap *)
+Definition run_forest_trees (s : sx) : sx :=
+  let F := forest_of_sx (sx_nth s 0) in
+  if (sxN (sx_nth s 1)) <? root_count F then L [A 0; L []]
+  else L [A 1; L (map sx_of_tree (last (all_trees F) []))].
+
 Definition run (cmd : N) (arg : sx) : sx :=
   match cmd with
   | 1 => run_forest_stats arg
@@ -37,5 +56,7 @@ Definition run (cmd : N) (arg : sx) : sx :=
   | 3 => run_table_struct arg
   | 4 => run_lr_parse arg
   | 5 => run_tree_ok arg
+  | 6 => run_forest_ok arg
+  | 7 => run_forest_trees arg
   | _ => L [A 999999]
   end.
